@@ -135,6 +135,7 @@ def obligations(tier):
         ch.ob('successor', 'harness.ch_c14', 'successor', 'label(n+1) is the shortlex successor of label(n): no gaps, no repeats', FUNCS_L, b4, T),
         ch.ob('caps-relation', 'harness.ch_c14', 'caps_relation', 'connection names are letter for letter the capitals of the object suffixes', FUNCS_L, b4, T),
         ch.ob('generator', 'harness.ch_c14', 'generator_sequence', 'the k-th name handed out by LetterIdGenerator is label(k)', FUNCS_L, 'k < 40', T),
+        ch.ob('generator-positions', 'harness.ch_c14', 'generator_positions', 'from ANY position k the generator hands out label(k), label(k+1): no reserved / skipped / repeated names', FUNCS_L, 'k < 20 000 (all names of up to three letters and beyond)', T),
         ch.ob('label-parses-back', 'harness.ch_c14', 'label_parses_back', 'str(id)+label(gen) parses to a matcher accepting exactly (id, gen)', FUNCS_L + FUNCS_M[2:4],
               'id < 10^5, gen < 702, compared against all pairs below 10^6', T),
         ch.ob('round-trip-reachable', 'harness.ch_c14', 'twin_round_trip', 'reachability twin', FUNCS_L, b4, T, expect_cex=True),
